@@ -28,12 +28,15 @@ def make_delay_model(spec):
     return DelayModel(spec['prob'], spec['dist'], DelayModel.DelayDegree[spec['degree']], seed=spec['seed'])
 
 
-def build(sc, workdir, env=None, budget=None):
+def build(sc, workdir, env=None, budget=None, dm=None):
+    """dm: a DelayModel OBJECT to use instead of building one from sc['delay_model'] (the same object may be handed to several
+    simulations, as an experiment loop that creates its delay model once does)"""
     cfg = write_files(sc, workdir)
     if env is None:
         env = T.TraceEnv(budget=budget)
     a = sc['alg']
-    dm = make_delay_model(sc.get('delay_model'))
+    if dm is None:
+        dm = make_delay_model(sc.get('delay_model'))
     delays = sc.get('delays') or {}
     choice = {}
     for o in sc['obs']:
